@@ -207,7 +207,6 @@ theorem rule_nt_step (fuel : Nat) (hR : RuleNT ctx fuel) (hC : CoreNT ctx fuel) 
           · split at h
             · simp only [Except.ok.injEq, Prod.mk.injEq, true_and] at h; exact h.symm
             · split at h
-              · cases h
               · simp only [Except.ok.injEq, Prod.mk.injEq, true_and] at h; exact h.symm
               · split at h
                 · cases h
@@ -675,7 +674,6 @@ theorem t_rule_step (hreg : RegOK ctx) (fuel : Nat) (hR : TRule ctx fuel) (hAll 
           · exact h
           · next index hi =>
             split at h
-            · exact h
             · exact h
             · split at h
               · cases h
